@@ -70,6 +70,14 @@ fn kind(dg: &[u8]) -> u8 {
     }
 }
 
+/// ChangeCipherSpec / Finished datagrams do not say who sent them; the client's ChangeCipherSpec is record
+/// sequence number 2 and its Finished follows a 3-record epoch-0 history, the server's are 4 / after 5 records —
+/// the record sequence number of the ChangeCipherSpec tells, and `run_script` passes Finished through `DIR_HINT`.
+fn from_client_hint(dg: &[u8]) -> bool {
+    match parse_records(dg).first() { Some(r) if r.ctype == 20 => r.seq <= 3, _ => DIR_HINT.with(|d| d.get()) }
+}
+thread_local! { static DIR_HINT: std::cell::Cell<bool> = const { std::cell::Cell::new(false) }; }
+
 fn rebuild(dg: &[u8], f: impl FnOnce(&mut Vec<u8>)) -> Vec<u8> {
     let r = &parse_records(dg)[0];
     let m = &parse_hs(&r.body)[0];
@@ -148,7 +156,10 @@ fn apply(act: &Act, dg: &[u8], atk: &Attacker, randoms: &(Vec<u8>, Vec<u8>), occ
         Act::PreInject(ct) => {
             // a clear-text record of the given content type arrives just before this datagram (from anybody):
             // application data, close_notify, ChangeCipherSpec, or a Finished with an arbitrary verify_data
-            let payload: Vec<u8> = match ct { 21 => vec![1, 0], 20 => vec![1], 22 => hs_bytes(20, 12, 9, 0, &[0x5A; 12]), _ => b"clear-text application data".to_vec() };
+            // the clear-text Finished carries exactly the message_seq the target expects next at this point of the flight
+            let next_seq: u16 = match kind(dg) { 2 => 0, 11 => 1, 12 => 2, 14 => 3, 16 => 1, _ => if parse_records(dg).first().map(|r| r.epoch == 0 && r.ctype == 20 || r.epoch > 0).unwrap_or(false) { 99 } else { 9 } };
+            let next_seq = if next_seq == 99 { if from_client_hint(dg) { 2 } else { 4 } } else { next_seq };
+            let payload: Vec<u8> = match ct { 21 => vec![1, 0], 20 => vec![1], 22 => hs_bytes(20, 12, next_seq, 0, &[0x5A; 12]), _ => b"clear-text application data".to_vec() };
             vec![record_bytes(*ct, (254, 253), 0, 99, &payload), dg.to_vec()]
         }
         Act::RefragTailLost(a) | Act::RefragEvery3(a) => {
@@ -257,6 +268,7 @@ pub async fn run_script_ticks(sc: &Script, max_ticks: u32) -> Option<Outcome> {
         let k = kind(&dg);
         if k == 1 && randoms.0.is_empty() { randoms.0 = parse_hs(&parse_records(&dg)[0].body)[0].body[2..34].to_vec(); }
         if k == 2 && randoms.1.is_empty() { randoms.1 = parse_hs(&parse_records(&dg)[0].body)[0].body[2..34].to_vec(); }
+        DIR_HINT.with(|d| d.set(from_client));
         let mut outs = vec![dg.clone()];
         let mut swap = false;
         for (i, r) in sc.rules.iter().enumerate() {
